@@ -268,33 +268,90 @@ def run_harness(binpath, args, input_text, timeout=900):
     return p.returncode, p.stdout, p.stderr
 
 
-def run_harness_sharded(binpath, args, lines, shards=NCPU, timeout=900):
-    """Runs the harness over `lines` split into contiguous shards in parallel child processes.
-    Returns (ok, output_lines, diagnostics). A child that dies (abort, stack overflow, kill) makes
-    ok False and names the shard; its lines are reported as "CHILD-DIED"."""
+def _stream_chunk(binpath, args, chunk, per_line, deadline, max_restarts=40):
+    """One shard: feeds `chunk` to a child and reads one line per input with a deadline per line.  A line that does not
+    arrive in `per_line` seconds (hang inside a non-polling loop) or on which the child dies (abort, stack overflow) is
+    reported as CHILD-DIED; the child is restarted on the remaining lines, so the other results are kept."""
+    import queue
+    import threading
+    res = [None] * len(chunk)
+    pos = 0
+    died = []
+    restarts = 0
+    while pos < len(chunk):
+        if time.time() > deadline or restarts > max_restarts:
+            break
+        env = dict(os.environ)
+        p = subprocess.Popen([binpath] + list(args), stdin=subprocess.PIPE, stdout=subprocess.PIPE, stderr=subprocess.DEVNULL,
+                             text=True, env=env)
+        batch = chunk[pos:]
+
+        def feed(proc=p, data="\n".join(batch) + "\n"):
+            try:
+                proc.stdin.write(data)
+                proc.stdin.close()
+            except Exception:
+                pass
+        threading.Thread(target=feed, daemon=True).start()
+        q = queue.Queue()
+
+        def pump(proc=p, qq=q):
+            try:
+                for l in proc.stdout:
+                    qq.put(l.rstrip("\n"))
+            except Exception:
+                pass
+            qq.put(None)
+        threading.Thread(target=pump, daemon=True).start()
+        got = 0
+        while got < len(batch):
+            try:
+                l = q.get(timeout=per_line)
+            except queue.Empty:
+                l = None
+            if l is None:
+                break
+            res[pos + got] = l
+            got += 1
+        try:
+            p.kill()
+            p.wait(timeout=10)
+        except Exception:
+            pass
+        if got < len(batch):
+            res[pos + got] = "CHILD-DIED"
+            died.append(pos + got)
+            pos += got + 1
+            restarts += 1
+        else:
+            pos += got
+    return res, died
+
+
+def run_harness_sharded(binpath, args, lines, shards=NCPU, timeout=900, per_line=90):
+    """Runs the harness over `lines` split into contiguous shards in parallel child processes, one flushed output line
+    per input.  Returns (ok, output_lines, diagnostics).  An input on which the child dies (abort, stack overflow) or
+    does not answer within `per_line` seconds is reported as "CHILD-DIED" and makes ok False; the child is restarted
+    behind it, so one bad input does not lose the shard."""
     if not lines:
         return True, [], ""
     n = max(1, min(shards, len(lines)))
     size = (len(lines) + n - 1) // n
     chunks = [lines[i:i + size] for i in range(0, len(lines), size)]
+    deadline = time.time() + timeout
 
     def one(chunk):
-        try:
-            return run_harness(binpath, args, "\n".join(chunk) + "\n", timeout=timeout)
-        except subprocess.TimeoutExpired:
-            return 124, "", "timeout"
+        return _stream_chunk(binpath, args, chunk, per_line, deadline)
 
     out, ok, diag = [], True, []
     with ThreadPoolExecutor(n) as ex:
-        for k, (chunk, (rc, o, e)) in enumerate(zip(chunks, ex.map(one, chunks))):
-            ls = o.split("\n")
-            if ls and ls[-1] == "":
-                ls.pop()
-            if rc != 0 or len(ls) != len(chunk):
+        for k, (chunk, (ls, died)) in enumerate(zip(chunks, ex.map(one, chunks))):
+            missing = [i for i, l in enumerate(ls) if l is None]
+            if died or missing:
                 ok = False
-                diag.append("shard %d: rc=%s lines=%d/%d %s" % (k, rc, len(ls), len(chunk), e[-300:]))
-                ls = ls[:len(chunk)] + ["CHILD-DIED"] * (len(chunk) - len(ls))
-            out.extend(ls)
+                diag.append("shard %d: %d input(s) killed the child or hung (> %ds), %d not run; first: %s"
+                            % (k, len(died), per_line, len(missing), (chunk[died[0]] if died else chunk[missing[0]])[:160]))
+            out.extend(l if l is not None else "CHILD-DIED" for l in ls)
     return ok, out, "\n".join(diag)
 
 
